@@ -294,6 +294,16 @@ pub fn run_case(ctx: &Ctx, sz: &Sizes, case: u64) {
     // ---- poison probe: a blocking recv after the sequence must block and then deliver
     let mut poison_probe = "skipped";
     if let (Some(rx), None) = (rx, ds_) {
+        // in half of the cases the receiver first moves through another channel: the blocking
+        // receive is then issued on the handle that comes out at the other end
+        let rx = if r.chance(500) {
+            let (mtx, mrx) = must("channel", ipc::channel::<ipc::IpcReceiver<M>>());
+            must("move receiver", mtx.send(rx));
+            rep.stat("poison_probe_on_transferred_receiver", 1);
+            must("take receiver", mrx.recv())
+        } else {
+            rx
+        };
         // drain what the sequence left behind
         let sent_ok = sl.iter().filter(|s| s.ok).count();
         let mut drained_ok = true;
